@@ -187,6 +187,21 @@ prop('C06',
   "Not decided: 'eventually run' (randomised priority system), timing accuracy, threaded vs inline hub equivalence, program order inside user generators.",
   "custom AST/CFG checker: effect intervals with callee summaries against a per-operation table, path-sensitive reachability per yielded-value kind, exception containment, must-precede, def-use of select results, definiteness", "DESIGN.md 5/C06")
 
+prop('C07',
+  "Static analysis of /repo's current source: interleavings cannot be enumerated statically; the check decides the protocol shape each "
+  "clause relies on - the test-and-create of the call-later task lies inside `with self._lock` and each function is handed over once; "
+  "callLater appends at the tail before it pings; the consumer waits, clears the wake-up pipe before draining and never after (within one "
+  "wake cycle), pops from the head and calls each function at most once inside its own catch-all; fast_schedule queues exactly once "
+  "before break_idle; Scheduler.run idles only on an empty queue and re-examines it; idle waits then clears; the 'already queued?' "
+  "decision in schedule() is dominated by the thread-affinity test and the off-thread branch only starts a ScheduleTask, which queues "
+  "only when not queued; core.call_later/raiseLater only forward to scheduler.callLater; SyncTask takes both locks at construction and "
+  "releases inlock before acquiring outlock after one yield, the synchroniser starts then waits and releases on the outermost exit; "
+  "cooperative lock: ownership written only by acquire/release, and for each (held, blocking) combination path-sensitive reachability "
+  "shows take / park / refuse-without-parking; release pops and schedules at most one waiter and makes it the owner. Decides this shape, "
+  "not race freedom over all interleavings.",
+  "Not decided: absence of races at bytecode granularity (atomicity of deque/Queue/Event trusted), exactly-once under pre-emption, timing ('noticed without the polling timeout') as a timing statement.",
+  "custom AST/CFG checker: lock-region membership, must-precede / never-after ordering, thread-affinity guard dominance, path-sensitive reachability for the lock state table, exception containment", "DESIGN.md 5/C07")
+
 NOT_APPLICABLE = {
   'C16': "Address types: the statement is about numeric/textual agreement over the whole address domain (byte order, mask arithmetic, CIDR parsing, zero-run compression, round trips, rejection of malformed text) - results of computations on runtime values; no shape-level rule is a necessary and telling condition for it (DESIGN.md section 7).",
 }
